@@ -127,7 +127,7 @@ Definition content_fits (d : doc_content) (r : response) : bool :=
 
 (* HttpResponseHeaders<T, H>::response_metadata: T's metadata plus one header
    per member of H's schema (schema2struct of H; names in key order) *)
-Definition doc_headers {V} (declared : list (str * Response.fval V)) : list str :=
+Definition doc_headers (declared : list (str * Response.fval)) : list str :=
   map fst declared.
 
 (* ------------------------------------------------------------ error body *)
